@@ -37,11 +37,12 @@ func stackProbes(thorough bool) []probe {
 	if thorough {
 		ps = append(ps,
 			probe{"paren-in-config x100000", "native", "x = " + rep("(", 100000)},
-			probe{"block x100000", "native", rep("b {\n", 100000)},
 			probe{"template x100000", "native", rep("\"${", 100000)},
-			probe{"object x100000", "native", rep("{a=", 100000)},
-			probe{"json-array x60000", "json", rep("[", 60000)},
-			probe{"json-object x60000", "json", rep("{\"a\":", 60000)})
+			probe{"object x100000", "native", rep("{a=", 100000)})
+		// not probed: 100000 nested blocks (no overflow; hclwrite.Format's output is
+		// inherently quadratic in the depth) and JSON (the JSON parser overflows only
+		// near 1,000,000 levels and needs quadratic time to get there: 60000 levels
+		// take 18 s per call)
 	}
 	return ps
 }
